@@ -256,7 +256,14 @@ Definition Container (cap : option Q) : kind :=
 Definition has_room (cap : option Q) (n : nat) : bool :=
   match cap with
   | None => true
-  | Some c => Qlt_bool (inject_Z (Z.of_nat n)) c    (* len(self.items) < self._capacity *)
+  | Some c => Qle_bool (inject_Z (Z.of_nat n) + 1) c    (* len(self.items) + 1 <= self._capacity *)
+  end.
+
+(* the guard before fix: 2019701:  len(self.items) < self._capacity  (admits ceil(capacity) items) *)
+Definition has_room_old (cap : option Q) (n : nat) : bool :=
+  match cap with
+  | None => true
+  | Some c => Qlt_bool (inject_Z (Z.of_nat n)) c
   end.
 
 Section Stores.
@@ -275,6 +282,15 @@ Section Stores.
 
   Definition Store (cap : option Q) : kind :=
     mkkind (list A) A unit A (fun _ => true) (fun _ => true) (s_do_put cap) s_do_get.
+
+  (* the Store of the code as found (old capacity guard), only used by the refutation theorem *)
+  Definition s_do_put_old (cap : option Q) (items : list A) (item : A) : dores (list A) unit :=
+    if has_room_old cap (length items)
+    then mkres (items ++ [item]) (Some tt) true
+    else mkres items None false.
+
+  Definition Store_unfixed (cap : option Q) : kind :=
+    mkkind (list A) A unit A (fun _ => true) (fun _ => true) (s_do_put_old cap) s_do_get.
 
   (* PriorityStore (store.py:116-129); [key] is what `<` compares (PriorityItem.priority).
      The error result of the heap functions (out of fuel / bad index) is mapped to "nothing happens";
